@@ -1444,7 +1444,7 @@ func (st *State) blockingOp(in ssa.Instruction, what string) {
 		return
 	}
 	for _, m := range c.MayBlock {
-		if m == what {
+		if m == what || (strings.HasSuffix(m, ":*") && strings.HasPrefix(what, m[:len(m)-1])) {
 			st.ctx.note("%s may block at %s without a shutdown alternative (accepted by its contract: mayblock)", c.Key, what)
 			return
 		}
@@ -1635,6 +1635,25 @@ func (st *State) frameLocs() []frameLoc {
 				v := env.eval(ex)
 				st.ctx.frame = append(st.ctx.frame, frameLoc{kind: "ghost", root: txt[2:k], ref: v.L[len(v.L)-1]})
 			default:
+				if isIdent(txt) {
+					// a captured variable the closure never assigns is captured by value: there is no
+					// location to write, the clause is vacuous for this body
+					byValue := false
+					name := txt
+					if rn := st.ctx.eng.renamedIdent(top.fn, name); rn != "" {
+						name = rn
+					}
+					for _, fv := range top.fn.FreeVars {
+						if fv.Name() == name {
+							if v, ok := top.regs[fv]; !ok || v.P == nil {
+								byValue = true
+							}
+						}
+					}
+					if byValue {
+						return
+					}
+				}
 				src := "&(" + txt + ")"
 				if strings.HasPrefix(txt, "*") {
 					src = txt[1:]
@@ -1652,6 +1671,18 @@ func (st *State) frameLocs() []frameLoc {
 		}()
 	}
 	return st.ctx.frame
+}
+
+func isIdent(s string) bool {
+	if s == "" {
+		return false
+	}
+	for i, r := range s {
+		if !(r == '_' || (r >= 'a' && r <= 'z') || (r >= 'A' && r <= 'Z') || (i > 0 && r >= '0' && r <= '9')) {
+			return false
+		}
+	}
+	return true
 }
 
 func (st *State) strictFrame() bool {
@@ -1801,6 +1832,17 @@ func hookKeys(st *State, in ssa.Instruction, t callTarget) []string {
 				}
 			}
 			keys = append(keys, fmt.Sprintf("%s#%d", q, found), q)
+		}
+	}
+	if c, ok := in.(ssa.CallInstruction); ok && !c.Common().IsInvoke() {
+		switch c.Common().Value.(type) {
+		case *ssa.Function, *ssa.Builtin, *ssa.MakeClosure:
+		default:
+			// a call through a function value: also addressable by the value's named type (`at call Option:`),
+			// which does not depend on how the value is reached (a range variable, an element, a field)
+			if nt, ok := c.Common().Value.Type().(*types.Named); ok {
+				keys = append(keys, nt.Obj().Name())
+			}
 		}
 	}
 	callee = st.ctx.eng.stableSubject(in.Parent(), callee)
